@@ -328,3 +328,223 @@ impl CaCert {
     #[verifier::external_body]
     fn repository_switch(&self) -> (r: bool) { unimplemented!() }
 }
+
+// ================================================================ point level
+#[verifier::external_body] pub struct Manifest { _opaque: () }
+#[verifier::external_body] pub struct PublicKey { _opaque: () }
+#[verifier::external_body] pub struct ManifestHash { _opaque: () }
+#[verifier::external_body] pub struct RunMetrics { _opaque: () }
+#[verifier::external_body] pub struct LogBook { _opaque: () }
+#[verifier::external_body] pub struct StoredPoint { _opaque: () }
+#[verifier::external_body] pub struct ParseError { _opaque: () }
+#[verifier::external_body] pub struct CollRepository<'a> { _p: &'a Collector }
+
+impl Clone for Bytes {
+    #[verifier::external_body]
+    fn clone(&self) -> (r: Bytes) ensures r == *self { unimplemented!() }
+}
+
+// ---- time (opaque, ordered; nothing about deadlines is claimed here: C39)
+impl Time { pub uninterp spec fn t(&self) -> int; }
+impl Clone for Time {
+    #[verifier::external_body]
+    fn clone(&self) -> (r: Time) ensures r == *self { unimplemented!() }
+}
+impl Copy for Time {}
+impl PartialEqSpecImpl for Time {
+    open spec fn obeys_eq_spec() -> bool { true }
+    open spec fn eq_spec(&self, other: &Time) -> bool { self.t() == other.t() }
+}
+impl PartialEq for Time {
+    #[verifier::external_body]
+    fn eq(&self, other: &Self) -> bool { unimplemented!() }
+}
+impl Eq for Time {}
+impl PartialOrdSpecImpl for Time {
+    open spec fn obeys_partial_cmp_spec() -> bool { true }
+    open spec fn partial_cmp_spec(&self, other: &Time) -> Option<Ordering> {
+        if self.t() < other.t() { Some(Ordering::Less) }
+        else if self.t() == other.t() { Some(Ordering::Equal) }
+        else { Some(Ordering::Greater) }
+    }
+}
+impl PartialOrd for Time {
+    #[verifier::external_body]
+    fn partial_cmp(&self, other: &Time) -> Option<Ordering> { unimplemented!() }
+}
+impl OrdSpecImpl for Time {
+    open spec fn obeys_cmp_spec() -> bool { true }
+    open spec fn cmp_spec(&self, other: &Time) -> Ordering {
+        if self.t() < other.t() { Ordering::Less }
+        else if self.t() == other.t() { Ordering::Equal }
+        else { Ordering::Greater }
+    }
+}
+impl Ord for Time {
+    #[verifier::external_body]
+    fn cmp(&self, other: &Time) -> Ordering { unimplemented!() }
+}
+pub assume_specification<T: Ord + core::marker::Destruct> [std::cmp::min] (a: T, b: T) -> (r: T)
+    ensures
+        T::obeys_cmp_spec() ==> r == (if b.cmp_spec(&a) == Ordering::Less { b } else { a }),
+;
+
+// ---- manifest / CRL validation typestate (C01)
+// (ee, content) came out of Manifest::validate under `issuer`
+pub uninterp spec fn valid_mft(ee: ResourceCert, content: ManifestContent, issuer: ResourceCert) -> bool;
+// Crl::verify_signature with this key was Ok
+pub uninterp spec fn crl_signed_by(crl: Crl, key: PublicKey) -> bool;
+pub uninterp spec fn mft_decode(b: Bytes, strict: bool) -> Option<Manifest>;
+pub uninterp spec fn crl_decode(b: Bytes) -> Option<Crl>;
+
+impl Manifest {
+    #[verifier::external_body]
+    pub fn decode(source: Bytes, strict: bool) -> (r: Result<Manifest, DecodeError>)
+        ensures r.ok() == mft_decode(source, strict),
+    { unimplemented!() }
+
+    #[verifier::external_body]
+    pub fn validate(self, issuer: &ResourceCert, strict: bool)
+        -> (r: Result<(ResourceCert, ManifestContent), ValidationError>)
+        ensures r matches Ok((ee, content)) ==> valid_mft(ee, content, *issuer),
+    { unimplemented!() }
+}
+impl ManifestContent {
+    #[verifier::external_body]
+    pub fn is_stale(&self) -> (r: bool) { unimplemented!() }
+    #[verifier::external_body]
+    pub fn len(&self) -> (r: usize) { unimplemented!() }
+    #[verifier::external_body]
+    pub fn next_update(&self) -> (r: Time) { unimplemented!() }
+}
+impl Cert {
+    pub uninterp spec fn spki_spec(&self) -> PublicKey;
+    #[verifier::external_body]
+    pub fn subject_public_key_info(&self) -> (r: &PublicKey) ensures *r == self.spki_spec() { unimplemented!() }
+    #[verifier::external_body]
+    pub fn validity(&self) -> (r: Validity) { unimplemented!() }
+}
+impl Crl {
+    #[verifier::external_body]
+    pub fn decode(source: Bytes) -> (r: Result<Crl, DecodeError>)
+        ensures r.ok() == crl_decode(source),
+    { unimplemented!() }
+    #[verifier::external_body]
+    pub fn verify_signature(&self, key: &PublicKey) -> (r: Result<(), ValidationError>)
+        ensures r is Ok ==> crl_signed_by(*self, *key),
+    { unimplemented!() }
+    #[verifier::external_body]
+    pub fn is_stale(&self) -> (r: bool) { unimplemented!() }
+    #[verifier::external_body]
+    pub fn next_update(&self) -> (r: Time) { unimplemented!() }
+    // turns on an internal lookup cache: the list itself is unchanged
+    #[verifier::external_body]
+    pub fn cache_serials(&mut self)
+        ensures
+            forall|s: Serial| final(self).contains_spec(s) == old(self).contains_spec(s),
+            forall|k: PublicKey| crl_signed_by(*final(self), k) == crl_signed_by(*old(self), k),
+    { unimplemented!() }
+}
+
+// ---- metrics
+impl Default for PublicationMetrics {
+    #[verifier::external_body]
+    fn default() -> (r: PublicationMetrics) { unimplemented!() }
+}
+impl vstd::std_specs::ops::AddAssignSpecImpl for PublicationMetrics {
+    open spec fn obeys_add_assign_spec() -> bool { false }
+    open spec fn add_assign_req(self, rhs: PublicationMetrics) -> bool { true }
+    uninterp spec fn add_assign_spec(self, rhs: PublicationMetrics) -> PublicationMetrics;
+}
+impl std::ops::AddAssign for PublicationMetrics {
+    #[verifier::external_body]
+    fn add_assign(&mut self, other: PublicationMetrics) { unimplemented!() }
+}
+impl RunMetrics {
+    #[verifier::external_body]
+    pub fn append_log(&mut self, uri: RsyncUri, book: LogBook) { unimplemented!() }
+}
+impl LogBookWriter {
+    #[verifier::external_body]
+    pub fn into_book(self) -> (r: LogBook) { unimplemented!() }
+}
+impl LogBook {
+    #[verifier::external_body]
+    pub fn is_empty(&self) -> (r: bool) { unimplemented!() }
+}
+
+// ---- store
+impl ParseError {
+    pub uninterp spec fn fatal_spec(&self) -> bool;
+    #[verifier::external_body]
+    pub fn is_fatal(&self) -> (r: bool) ensures r == self.fatal_spec() { unimplemented!() }
+}
+// Reading this stored point hits a fatal I/O error somewhere (a timeless attribute of the point's
+// file; C41: the one legitimate source of Err in process_stored)
+pub uninterp spec fn stored_read_fatal(p: StoredPoint) -> bool;
+impl StoredPoint {
+    pub uninterp spec fn manifest_spec(&self) -> Option<StoredManifest>;
+    // objects not read yet (a file is finite)
+    pub uninterp spec fn pending(&self) -> nat;
+
+    #[verifier::external_body]
+    pub fn manifest(&self) -> (r: Option<&StoredManifest>)
+        ensures r matches Some(m) ==> self.manifest_spec() == Some(*m), r is None ==> self.manifest_spec() is None,
+    { unimplemented!() }
+    #[verifier::external_body]
+    pub fn is_new(&self) -> (r: bool) { unimplemented!() }
+
+    // Iterator::next of StoredPoint (R9 calls it directly)
+    #[verifier::external_body]
+    pub fn next(&mut self) -> (r: Option<Result<StoredObject, ParseError>>)
+        ensures
+            final(self).manifest_spec() == old(self).manifest_spec(),
+            r is Some ==> final(self).pending() < old(self).pending(),
+            (r matches Some(Err(e)) && e.fatal_spec()) ==> stored_read_fatal(*old(self)),
+            stored_read_fatal(*final(self)) == stored_read_fatal(*old(self)),
+    { unimplemented!() }
+}
+
+// ---- repository functions of PubPoint / Run that are not extracted here
+impl<'a, P: ProcessRun> PubPoint<'a, P> {
+    #[verifier::external_body]
+    fn apply_metrics(&mut self, metrics: &mut RunMetrics)
+        ensures
+            final(self).run == old(self).run, final(self).cert == old(self).cert,
+            final(self).processor.log() == old(self).processor.log(),
+    { unimplemented!() }
+}
+
+// Failure sources outside this unit (C41: the only places an Err can come from)
+pub uninterp spec fn store_open_failed(s: &StoreRun, ca: &CaCert) -> bool;
+pub uninterp spec fn collector_failed(c: &CollectorRun, ca: &CaCert) -> bool;
+impl<'a> StoreRun<'a> {
+    #[verifier::external_body]
+    pub fn pub_point(&self, ca: &CaCert) -> (r: Result<StoredPoint, Failed>)
+        ensures r is Err ==> store_open_failed(self, ca),
+    { unimplemented!() }
+}
+impl<'a> CollectorRun<'a> {
+    #[verifier::external_body]
+    pub fn repository<'s>(&'s self, ca: &CaCert) -> (r: Result<Option<CollRepository<'s>>, RunFailed>)
+        ensures r is Err ==> collector_failed(self, ca),
+    { unimplemented!() }
+}
+impl<'a, P: ProcessRun> Run<'a, P> {
+    #[verifier::external_body]
+    fn run_failed(&self, err: RunFailed) { unimplemented!() }
+}
+impl<'a, P: ProcessRun> PubPoint<'a, P> {
+    // PubPoint::process_collected (engine.rs:731). ASSUMED here; nothing is
+    // promised about the processor that comes back after an aborted update:
+    // the object closure may have fed it objects of the abandoned manifest.
+    #[verifier::external_body]
+    fn process_collected(self, collector: CollRepository, store: &mut StoredPoint, metrics: &mut RunMetrics)
+        -> (r: Result<Result<Vec<CaTask<P::PubPoint>>, Self>, RunFailed>)
+        requires self.processor.log() == Seq::<Item>::empty(),
+        ensures
+            r matches Ok(Err(this)) ==> this.run == self.run && this.cert == self.cert,
+            r matches Ok(Ok(tasks)) ==> forall|i: int| 0 <= i < tasks@.len() ==>
+                child_ok(#[trigger] tasks@[i], *self.cert, self.run.validation.max_ca_depth),
+    { unimplemented!() }
+}
